@@ -18,6 +18,12 @@ def step (s : St) (toks : List String) : St × List String :=
     match i.toNat?, ch.toNat?, l.toNat?, la.toNat? with
     | some i, some c, some l, some la => ({ s with items := s.items.set i { channel := c, left := l, last := la } }, [])
     | _, _, _, _ => (s, ["BADOP"])
+  | ["setdur", t2, v, d, l, f] =>
+    match t2.toNat?, v.toNat?, d.toNat?, l.toNat? with
+    | some t2, some v, some d, some l =>
+      let i : DurIn := { time2 := t2, newValue := v, dur := d, left := l, cdFlag := f == "1" }
+      (s, [if i.arms then s!"DUR {i.eff} 1 {i.target}" else "DUR 0 0 -"])
+    | _, _, _, _ => (s, ["BADOP"])
   | ["cdcb", now] =>
     match now.toNat? with
     | some n =>
